@@ -225,6 +225,8 @@ let rec string_of_pos_acc (p : positive) : string =
 let string_of_z (z : z) = match z with
   | Z0 -> "0" | Zpos p -> string_of_pos_acc p | Zneg p -> "-" ^ string_of_pos_acc p
 
+let timefmt_oracle : (string, string) Hashtbl.t = Hashtbl.create 64
+let num_oracle : (string, string option) Hashtbl.t = Hashtbl.create 256
 let float_oracle : (string, string option) Hashtbl.t = Hashtbl.create 256
 let time_oracle : (string, string option) Hashtbl.t = Hashtbl.create 256
 
@@ -232,6 +234,8 @@ let o_line args =
   (match args with
    | ["float"; bits; lex; r] -> Hashtbl.replace float_oracle (bits ^ ":" ^ lex) (if r = "ERR" then None else Some (unhex r))
    | ["time"; lex; r] -> Hashtbl.replace time_oracle lex (if r = "ERR" then None else Some (unhex r))
+   | ["timefmt"; repr; text] -> Hashtbl.replace timefmt_oracle (unhex repr) (unhex text)
+   | ["num"; bits; lit; r] -> Hashtbl.replace num_oracle (bits ^ ":" ^ unhex lit) (if r = "ERR" then None else Some (unhex r))
    | _ -> ());
   "SKIP oracle"
 
@@ -357,6 +361,267 @@ let r_line args =
     ^ " spec=" ^ string_of_outcome ~auth:false ~sortcors:true (serve_spec s c rq)
   | _ -> fail_line "R args"
 
+(* ---------- JSON: J (type), E (encode / round trip), U (decode) lines ---------- *)
+(* a small JSON reader/printer (trusted glue) *)
+exception Json_error of string
+
+let parse_json_text (t : string) : json =
+  let n = String.length t in
+  let i = ref 0 in
+  let peek () = if !i < n then t.[!i] else '\000' in
+  let rec ws () = if !i < n && (t.[!i] = ' ' || t.[!i] = '\n' || t.[!i] = '\t' || t.[!i] = '\r') then (incr i; ws ()) in
+  let expect c = if peek () = c then incr i else raise (Json_error (Printf.sprintf "expected %c at %d" c !i)) in
+  let add_utf8 b cp =
+    if cp < 0x80 then Buffer.add_char b (Char.chr cp)
+    else if cp < 0x800 then (Buffer.add_char b (Char.chr (0xC0 lor (cp lsr 6))); Buffer.add_char b (Char.chr (0x80 lor (cp land 0x3F))))
+    else if cp < 0x10000 then (Buffer.add_char b (Char.chr (0xE0 lor (cp lsr 12))); Buffer.add_char b (Char.chr (0x80 lor ((cp lsr 6) land 0x3F))); Buffer.add_char b (Char.chr (0x80 lor (cp land 0x3F))))
+    else (Buffer.add_char b (Char.chr (0xF0 lor (cp lsr 18))); Buffer.add_char b (Char.chr (0x80 lor ((cp lsr 12) land 0x3F))); Buffer.add_char b (Char.chr (0x80 lor ((cp lsr 6) land 0x3F))); Buffer.add_char b (Char.chr (0x80 lor (cp land 0x3F)))) in
+  let parse_string () =
+    expect '"';
+    let b = Buffer.create 16 in
+    let rec go () =
+      if !i >= n then raise (Json_error "unterminated string");
+      let c = t.[!i] in
+      incr i;
+      if c = '"' then ()
+      else if c = '\\' then begin
+        let e = t.[!i] in incr i;
+        (match e with
+         | 'n' -> Buffer.add_char b '\n' | 't' -> Buffer.add_char b '\t' | 'r' -> Buffer.add_char b '\r'
+         | 'b' -> Buffer.add_char b '\b' | 'f' -> Buffer.add_char b '\012'
+         | 'u' ->
+           let hex4 () = let v = int_of_string ("0x" ^ String.sub t !i 4) in i := !i + 4; v in
+           let cp = hex4 () in
+           if cp >= 0xD800 && cp < 0xDC00 && !i + 6 <= n && t.[!i] = '\\' && t.[!i + 1] = 'u' then begin
+             i := !i + 2;
+             let lo = hex4 () in
+             add_utf8 b (0x10000 + ((cp - 0xD800) lsl 10) + (lo - 0xDC00))
+           end else add_utf8 b cp
+         | c -> Buffer.add_char b c);
+        go ()
+      end else (Buffer.add_char b c; go ()) in
+    go (); Buffer.contents b in
+  let rec value () : json =
+    ws ();
+    match peek () with
+    | '{' ->
+      incr i; ws ();
+      if peek () = '}' then (incr i; JObj []) else begin
+        let rec members acc =
+          ws (); let k = parse_string () in ws (); expect ':';
+          let v = value () in ws ();
+          if peek () = ',' then (incr i; members ((str_of_string k, v) :: acc))
+          else (expect '}'; List.rev ((str_of_string k, v) :: acc)) in
+        JObj (members [])
+      end
+    | '[' ->
+      incr i; ws ();
+      if peek () = ']' then (incr i; JArr []) else begin
+        let rec elems acc =
+          let v = value () in ws ();
+          if peek () = ',' then (incr i; elems (v :: acc)) else (expect ']'; List.rev (v :: acc)) in
+        JArr (elems [])
+      end
+    | '"' -> JStr (str_of_string (parse_string ()))
+    | 't' -> i := !i + 4; JBool true
+    | 'f' -> i := !i + 5; JBool false
+    | 'n' -> i := !i + 4; JNull
+    | _ ->
+      let st = !i in
+      while !i < n && (match t.[!i] with '0' .. '9' | '-' | '+' | '.' | 'e' | 'E' -> true | _ -> false) do incr i done;
+      if !i = st then raise (Json_error (Printf.sprintf "unexpected char at %d" st));
+      JNum (str_of_string (String.sub t st (!i - st))) in
+  let v = value () in ws ();
+  if !i <> n then raise (Json_error "trailing data");
+  v
+
+let json_escape (s : string) : string =
+  let b = Buffer.create (String.length s + 2) in
+  Buffer.add_char b '"';
+  String.iter (fun c ->
+      match c with
+      | '"' -> Buffer.add_string b "\\\""
+      | '\\' -> Buffer.add_string b "\\\\"
+      | '\n' -> Buffer.add_string b "\\n"
+      | '\r' -> Buffer.add_string b "\\r"
+      | '\t' -> Buffer.add_string b "\\t"
+      | c when Char.code c < 0x20 -> Buffer.add_string b (Printf.sprintf "\\u%04x" (Char.code c))
+      | c -> Buffer.add_char b c) s;
+  Buffer.add_char b '"';
+  Buffer.contents b
+
+let rec print_json (j : json) : string =
+  match j with
+  | JNull -> "null"
+  | JBool b -> if b then "true" else "false"
+  | JNum t -> string_of_str t
+  | JStr s -> json_escape (string_of_str s)
+  | JArr l -> "[" ^ String.concat "," (List.map print_json l) ^ "]"
+  | JObj ms -> "{" ^ String.concat "," (List.map (fun (k, v) -> json_escape (string_of_str k) ^ ":" ^ print_json v) ms) ^ "}"
+
+
+let fmt_float_o (_bits : z) (repr : ascii list) : ascii list = repr
+let fmt_time_o (repr : ascii list) : ascii list =
+  match Hashtbl.find_opt timefmt_oracle (string_of_str repr) with
+  | Some t -> str_of_string t
+  | None -> failwith ("missing timefmt oracle " ^ string_of_str repr)
+let parse_num_o (bits : z) (lit : ascii list) : ascii list option =
+  let key = string_of_z bits ^ ":" ^ string_of_str lit in
+  match Hashtbl.find_opt num_oracle key with
+  | Some r -> Option.map str_of_string r
+  | None -> failwith ("missing num oracle " ^ key)
+
+(* jsch syntax: s i<b> f<b> b t y | n(..) | a(..) | o(m;m;...|addl) with m = F<hexname>:<req>:<sch> | E:<sch> *)
+let parse_jsch (t : string) : jsch =
+  let n = String.length t in
+  let rec go i : jsch * int =
+    match t.[i] with
+    | 's' -> (JPrimS QStr, i + 1)
+    | 'b' -> (JPrimS QBool, i + 1)
+    | 't' -> (JPrimS QTime, i + 1)
+    | 'y' -> (JPrimS QAny, i + 1)
+    | 'i' | 'f' ->
+      let j = ref (i + 1) in
+      while !j < n && t.[!j] >= '0' && t.[!j] <= '9' do incr j done;
+      let bits = z_of_int (int_of_string (String.sub t (i + 1) (!j - i - 1))) in
+      ((if t.[i] = 'i' then JPrimS (QInt bits) else JPrimS (QNum bits)), !j)
+    | 'n' -> let (x, j) = go (i + 2) in (JNullS x, j + 1)
+    | 'a' -> let (x, j) = go (i + 2) in (JArrS x, j + 1)
+    | 'o' ->
+      let rec members i acc =
+        if t.[i] = '|' then (List.rev acc, i + 1)
+        else if t.[i] = ';' then members (i + 1) acc
+        else if t.[i] = 'E' then
+          let (x, j) = go (i + 2) in members j ((MEmbed, x) :: acc)
+        else begin
+          (* F<hexname>:<req>:<sch> *)
+          let c1 = String.index_from t i ':' in
+          let name = String.sub t (i + 1) (c1 - i - 1) in
+          let req = t.[c1 + 1] = '1' in
+          let (x, j) = go (c1 + 3) in
+          members j ((MField (str_of_hex name, req), x) :: acc)
+        end in
+      let (ms, j) = members (i + 2) [] in
+      if t.[j] = '-' then (JObjS (ms, None), j + 2)
+      else let (x, k) = go j in (JObjS (ms, Some x), k + 1)
+    | c -> failwith (Printf.sprintf "jsch at %d in %s" i t) in
+  fst (go 0)
+
+(* value syntax (Dump), directed by the schema *)
+let parse_gval (s : jsch) (t : string) : gval =
+  let n = String.length t in
+  let i = ref 0 in
+  let has p = !i + String.length p <= n && String.sub t !i (String.length p) = p in
+  let eat p = if has p then (i := !i + String.length p; true) else false in
+  let until stops =
+    let st = !i in
+    while !i < n && not (String.contains stops t.[!i]) do incr i done;
+    String.sub t st (!i - st) in
+  let rec go (s : jsch) : gval =
+    match s with
+    | JPrimS QStr -> ignore (eat "S("); let h = until ")" in ignore (eat ")"); GStr (str_of_hex h)
+    | JPrimS (QInt _) -> ignore (eat "I("); let h = until ")" in ignore (eat ")");
+      GInt (let neg = String.length h > 0 && h.[0] = '-' in
+            let digits = if neg then String.sub h 1 (String.length h - 1) else h in
+            let v = String.fold_left (fun acc c -> Z.add (Z.mul acc (z_of_int 10)) (z_of_int (Char.code c - 48))) Z0 digits in
+            if neg then Z.opp v else v)
+    | JPrimS (QNum _) -> ignore (eat "F("); let h = until ")" in ignore (eat ")"); GFlt (str_of_string h)
+    | JPrimS QBool -> ignore (eat "B("); let h = until ")" in ignore (eat ")"); GBool (h = "1")
+    | JPrimS QTime -> ignore (eat "T("); let h = until ")" in ignore (eat ")"); GTime (str_of_string h)
+    | JPrimS QAny -> ignore (eat "Raw("); let h = until ")" in ignore (eat ")");
+      GRaw (parse_json_text (if h = "-" then "null" else unhex h))
+    | JNullS s' -> if eat "Null" then GNullable None else (ignore (eat "P("); let v = go s' in ignore (eat ")"); GNullable (Some v))
+    | JArrS it ->
+      if eat "Nil[]" then GList [] else begin
+        ignore (eat "[");
+        let rec elems acc = if has "]" then List.rev acc else (let v = go it in ignore (eat ","); elems (v :: acc)) in
+        let l = elems [] in ignore (eat "]"); GList l
+      end
+    | JObjS (ms, addl) ->
+      ignore (eat "{");
+      let fs = List.map (fun (k, sf) ->
+          let v = (match k with
+              | MEmbed -> go sf
+              | MField (_, true) -> go sf
+              | MField (_, false) -> if eat "N" then GMaybe None else (ignore (eat "J("); let v = go sf in ignore (eat ")"); GMaybe (Some v))) in
+          ignore (eat ","); v) ms in
+      let ad = (match addl with
+          | None -> []
+          | Some sa ->
+            if eat "NilMap" then [] else begin
+              ignore (eat "M{");
+              let rec kvs acc = if has "}" then List.rev acc else begin
+                  let k = until "=" in ignore (eat "=");
+                  let v = go sa in ignore (eat ","); kvs ((str_of_hex k, v) :: acc) end in
+              let l = kvs [] in ignore (eat "}"); l
+            end) in
+      ignore (eat ","); ignore (eat "}");
+      GStruct (fs, ad) in
+  go s
+
+let rec dump_gval (s : jsch) (v : gval) : string =
+  match s, v with
+  | _, GStr x -> "S(" ^ hex_of_str x ^ ")"
+  | _, GInt z -> "I(" ^ string_of_z z ^ ")"
+  | _, GFlt r -> "F(" ^ string_of_str r ^ ")"
+  | _, GBool b -> if b then "B(1)" else "B(0)"
+  | _, GTime r -> "T(" ^ string_of_str r ^ ")"
+  | _, GRaw j -> "Raw(" ^ hex (print_json j) ^ ")"
+  | JNullS s', GNullable None -> "Null"
+  | JNullS s', GNullable (Some x) -> "P(" ^ dump_gval s' x ^ ")"
+  | _, GMaybe None -> "N"
+  | _, GMaybe (Some x) -> "J(" ^ dump_gval s x ^ ")"
+  | JArrS it, GList l -> "[" ^ String.concat "," (List.map (dump_gval it) l) ^ "]"
+  | JObjS (ms, addl), GStruct (fs, ad) ->
+    let parts = List.map2 (fun (_, sf) f -> dump_gval sf f) ms fs in
+    let parts = (match addl with
+        | None -> parts
+        | Some sa ->
+          let kv = List.sort compare (List.map (fun (k, x) -> hex_of_str k ^ "=" ^ dump_gval sa x) ad) in
+          parts @ ["M{" ^ String.concat "," kv ^ "}"]) in
+    "{" ^ String.concat "," parts ^ "}"
+  | _, _ -> "?"
+
+let jtypes : (string, jsch) Hashtbl.t = Hashtbl.create 64
+
+let j_line args =
+  match args with
+  | [pkg; name; sch] -> Hashtbl.replace jtypes (pkg ^ " " ^ name) (parse_jsch sch); "SKIP jtype"
+  | _ -> fail_line "J args"
+
+let res_json_string r = match r with
+  | Ok j -> hex (print_json j)
+  | _ -> "MarshalErr"
+
+let e_line args =
+  match args with
+  | [pkg; name; v] ->
+    let s = Hashtbl.find jtypes (pkg ^ " " ^ name) in
+    let gv = parse_gval s v in
+    let r = enc fmt_float_o fmt_time_o s gv in
+    (match r with
+     | Ok j ->
+       let back = (match dec parse_num_o parse_time_oracle s j with
+           | Ok v' -> dump_gval s v'
+           | Err k -> "Err(" ^ hex_of_str k ^ ")"
+           | ErrOther -> "ErrOther") in
+       "model=" ^ hex (print_json j) ^ " back=" ^ back ^ " valid=" ^ (if validates parse_num_o parse_time_oracle s j then "1" else "0")
+     | _ -> "model=MarshalErr")
+  | _ -> fail_line "E args"
+
+let u_line args =
+  match args with
+  | [pkg; name; h] ->
+    let s = Hashtbl.find jtypes (pkg ^ " " ^ name) in
+    let j = parse_json_text (unhex h) in
+    let valid = validates parse_num_o parse_time_oracle s j in
+    (match dec parse_num_o parse_time_oracle s j with
+     | Ok v ->
+       "model=" ^ dump_gval s v ^ " reenc=" ^ res_json_string (enc fmt_float_o fmt_time_o s v) ^ " valid=" ^ (if valid then "1" else "0")
+     | Err k -> "model=Err(" ^ hex_of_str k ^ ") valid=" ^ (if valid then "1" else "0")
+     | ErrOther -> "model=ErrOther valid=" ^ (if valid then "1" else "0"))
+  | _ -> fail_line "U args"
+
 let dispatch line =
   match List.filter (fun t -> t = "" || t.[0] <> '#') (String.split_on_char ' ' line) with
   | "C19" :: args -> c19 args
@@ -365,6 +630,9 @@ let dispatch line =
   | "D" :: _ -> "SKIP doc"
   | "O" :: args -> o_line args
   | "P" :: args -> p_line args
+  | "J" :: args -> j_line args
+  | "E" :: args -> e_line args
+  | "U" :: args -> u_line args
   | "R" :: args -> r_line args
   | _ -> fail_line ("unknown case: " ^ line)
 
